@@ -132,4 +132,26 @@ theorem decomp_of_mem {a : Nat} {l : List Nat} (h : a ∈ l) : ∃ P S, l = P ++
 theorem snoc_of_ne_nil {l : List Nat} (h : l ≠ []) : ∃ Q a, l = Q ++ [a] :=
   ⟨l.dropLast, l.getLast h, (List.dropLast_concat_getLast h).symm⟩
 
+theorem perm_insAfter {a : Nat} (e : Nat) {l : List Nat} (h : a ∈ l) : (insAfter a e l).Perm (e :: l) := by
+  induction l with
+  | nil => cases h
+  | cons x l ih =>
+    by_cases hx : x = a
+    · simp only [insAfter, hx, if_true]
+      exact List.Perm.swap e a l
+    · have : a ∈ l := by
+        rcases List.mem_cons.1 h with k | m
+        · exact absurd k.symm hx
+        · exact m
+      simp only [insAfter, hx, if_false]
+      exact ((ih this).cons x).trans (List.Perm.swap e x l)
+
+/-- The ghost update of `insert`/`move`, for a ring `r :: xs` and a position `a` in it: the new element
+sequence is a permutation of `e :: xs`. -/
+theorem perm_insAfter_tail {a r : Nat} (e : Nat) {xs : List Nat} (h : a ∈ r :: xs) :
+    ((insAfter a e (r :: xs)).tail).Perm (e :: xs) := by
+  have h1 := perm_insAfter e h
+  rw [← insAfter_cons_tail] at h1
+  exact (h1.trans (List.Perm.swap r e xs)).cons_inv
+
 end Hive.DList
